@@ -73,7 +73,7 @@ def _iso_worker(rec):
         # the same with stateless elements shared between the branches and nested sequences
         check_isolation(sc, rec["exp"], found, rec["src"], share=True)
         cases.append((rl.case_hash(["isolation-shared-elements", sc]), True))
-    return found, cases
+    return (rl.plain(found) if found else found), cases
 
 
 _ACCS = None
@@ -86,7 +86,7 @@ def _alias_worker(rec):
         _ACCS = al.accumulators()
     found, cases, skipped = {}, [], [0]
     replay_alias(rec, _ACCS, found, cases, skipped, _ONLY)
-    return found, cases, skipped[0]
+    return (rl.plain(found) if found else found), cases, skipped[0]
 
 
 def replay_alias(rec, accs, found, cases, skipped, only=None):
